@@ -25,7 +25,7 @@ $(B)/shadow/nstd/Base.hpp: $(REPO)/include/nstd/Base.hpp
 $(B)/repo/%.o: $(REPO)/src/%.cpp sim/wrap.syms
 	@mkdir -p $(dir $@)
 	$(CXX) $(REPO_CXXFLAGS) -MMD -MP -c $< -o $@
-	objcopy --redefine-syms=sim/wrap.syms $@
+	objcopy --redefine-syms=sim/wrap.syms --rename-section .bss=nstd_bss --rename-section .data=nstd_data $@
 
 $(B)/sim/%.o: sim/%.cpp
 	@mkdir -p $(dir $@)
@@ -46,11 +46,15 @@ $(B)/simrt.o: $(SIM_OBJS) Makefile
 	nm $@ | awk '$$2 ~ /^[WVu]$$/ {print $$3}' | sort -u > $(B)/simrt.weak
 	objcopy --localize-symbols=$(B)/simrt.weak $@
 
-# harnesses that #include a repo .cpp (for access to private state) must not link the repo's own object of that file
-EXCL_c10_future = Future.o
-EXCL_c14_eventloop = Future.o Error.o
-$(B)/%: $(B)/h/%.o $(B)/simrt.o $(REPO_OBJS) Makefile
-	$(CXX) $(filter-out $(addprefix $(B)/repo/,$(EXCL_$*)),$(filter %.o,$^)) -o $@ $(LDFLAGS)
+# (harnesses that #include a repo .cpp for access to private state define that file's symbols themselves: the archive member is then never pulled)
+# The library is linked the way its users link it: as a static archive, so only the members a harness needs are present (and
+# only their static constructors run).  The writable static data of these members lives in the sections nstd_bss / nstd_data,
+# which the simulator restores to their start-of-process contents before every run (sim/core.cpp): a run never inherits
+# library state - lazily initialised flags, caches, the thread pool - from the runs before it in the same worker process.
+$(B)/libnstdrepo.a: $(REPO_OBJS)
+	rm -f $@ && ar rcs $@ $^
+$(B)/%: $(B)/h/%.o $(B)/simrt.o $(B)/libnstdrepo.a Makefile
+	$(CXX) $(B)/h/$*.o $(B)/simrt.o $(B)/libnstdrepo.a -o $@ $(LDFLAGS)
 
 clean:
 	rm -rf $(B)
